@@ -23,6 +23,7 @@ import (
 	"go/types"
 	"os"
 	"path/filepath"
+	"reflect"
 	"sort"
 	"strings"
 
@@ -57,6 +58,7 @@ type report struct {
 	Yields     int            `json:"yields"`
 	RMWSplits  int            `json:"rmw_splits"`
 	MapWrites  int            `json:"map_writes_instrumented"`
+	MapReads   int            `json:"map_reads_instrumented"`
 	Channels   []string       `json:"channel_ops"` // not simulated: reported so that the harness can warn
 	Skipped    []string       `json:"skipped"`
 }
@@ -351,6 +353,71 @@ func yieldList(fset *token.FileSet, info *types.Info, list []ast.Stmt, fe *fileE
 		fe.needSimrt = true
 		rep.Yields++
 		fe.edits = append(fe.edits, edit{off(st.Pos()), off(st.Pos()), "simrt.Y(); ", 10})
+
+		// map reads in the statement's own expressions (not in nested blocks or
+		// function literals): happens-before race check against writes (simrt.MR)
+		{
+			seen := map[string]bool{}
+			var heads []ast.Node
+			switch x := st.(type) {
+			case *ast.IfStmt:
+				heads = []ast.Node{x.Init, x.Cond}
+			case *ast.ForStmt:
+				heads = []ast.Node{x.Init, x.Cond}
+			case *ast.RangeStmt:
+				heads = nil // MapSeq2 checks the ranged map itself
+			case *ast.SwitchStmt:
+				heads = []ast.Node{x.Init, x.Tag}
+			case *ast.TypeSwitchStmt:
+				heads = []ast.Node{x.Init, x.Assign}
+			case *ast.BlockStmt, *ast.SelectStmt, *ast.LabeledStmt, *ast.DeferStmt, *ast.GoStmt:
+				heads = nil
+			default:
+				heads = []ast.Node{st}
+			}
+			written := map[ast.Expr]bool{}
+			if as, ok := st.(*ast.AssignStmt); ok && as.Tok == token.ASSIGN {
+				for _, l := range as.Lhs {
+					written[l] = true
+				}
+			}
+			for _, h := range heads {
+				if h == nil || (reflect.ValueOf(h).Kind() == reflect.Pointer && reflect.ValueOf(h).IsNil()) {
+					continue
+				}
+				ast.Inspect(h, func(n ast.Node) bool {
+					switch e := n.(type) {
+					case *ast.FuncLit:
+						return false
+					case *ast.IndexExpr:
+						if written[e] {
+							return true
+						}
+						if ix, isMap := isMapIndex(info, e); isMap && shared(info, ix.X) && pure(ix.X) {
+							m := src(fset, ix.X)
+							if m != "" && !strings.Contains(m, "\n") && !seen[m] {
+								seen[m] = true
+							}
+						}
+					}
+					return true
+				})
+			}
+			if len(seen) > 0 {
+				pos := fset.Position(st.Pos())
+				ms := make([]string, 0, len(seen))
+				for m := range seen {
+					ms = append(ms, m)
+				}
+				sort.Strings(ms)
+				var b strings.Builder
+				for _, m := range ms {
+					fmt.Fprintf(&b, "simrt.MR(%s, %q); ", m, fmt.Sprintf("%s:%d", filepath.Base(pos.Filename), pos.Line))
+					rep.MapReads++
+				}
+				fe.edits = append(fe.edits, edit{off(st.Pos()), off(st.Pos()), b.String(), 6})
+			}
+		}
 
 		// map writes: happens-before race check (simrt.MW)
 		mapWrite := func(target ast.Expr) {
